@@ -1,0 +1,28 @@
+//! Accessors for crate-private streaming-KZG items (only with `--cfg pc_verif`).
+use super::{Commitment, CommitterKey, VerifierKey};
+use ark_ec::pairing::Pairing;
+
+/// The G1 powers of a time-efficient committer key.
+pub fn ck_powers_of_g<E: Pairing>(ck: &CommitterKey<E>) -> &[E::G1Affine] {
+    &ck.powers_of_g
+}
+
+/// The G2 powers of a time-efficient committer key.
+pub fn ck_powers_of_g2<E: Pairing>(ck: &CommitterKey<E>) -> &[E::G2Affine] {
+    &ck.powers_of_g2
+}
+
+/// The `(G1, G2)` powers of a verifier key.
+pub fn vk_powers<E: Pairing>(vk: &VerifierKey<E>) -> (&[E::G1Affine], &[E::G2Affine]) {
+    (&vk.powers_of_g, &vk.powers_of_g2)
+}
+
+/// The group element inside a commitment.
+pub fn commitment_point<E: Pairing>(c: &Commitment<E>) -> E::G1Affine {
+    c.0
+}
+
+/// Build a commitment from a group element.
+pub fn commitment_from_point<E: Pairing>(p: E::G1Affine) -> Commitment<E> {
+    Commitment(p)
+}
